@@ -178,6 +178,11 @@ func (p *Prog) externalSource(c *ssa.Call) (string, bool) {
 	return "", false
 }
 
+// errFirstExempt: functions that consult a found flag before the error, with the reason.
+var errFirstExempt = map[string]bool{
+	"CheckStorageHealth": true, // diagnostic over a fully loaded storage: a read error is reported as slab-not-found (observation in DESIGN section 7; C20 speaks of loaded storages, C18 of lookups)
+}
+
 // E2 errors of caller-supplied components are wrapped as external errors.
 func ruleE2(p *Prog, r *Report) {
 	const R = "E2"
@@ -226,6 +231,83 @@ func ruleE2(p *Prog, r *Report) {
 				if sameValue(last, ev) && !knownNil(ev, ret.Block()) {
 					// tail return of a storage-to-storage delegation is fine when the callee is an in-package categorising method
 					raw = p.InstrPos(ret)
+				}
+			}
+			// (b) the error is not re-categorised: it may be handed only to the wrap helpers / NewExternalError
+			// (a value that may be this error - through phis - handed to another error constructor hides the
+			// caller-supplied component's failure behind a library category)
+			if raw == "" {
+				var reach func(v ssa.Value, depth int, seen map[ssa.Value]bool) string
+				reach = func(v ssa.Value, depth int, seen map[ssa.Value]bool) string {
+					if v == nil || depth > 4 || seen[v] || v.Referrers() == nil {
+						return ""
+					}
+					seen[v] = true
+					for _, ref := range *v.Referrers() {
+						switch x := ref.(type) {
+						case *ssa.Phi:
+							if w := reach(x, depth+1, seen); w != "" {
+								return w
+							}
+						case *ssa.Store:
+							// spilled local: follow the loads of the cell
+							if al, ok := x.Addr.(*ssa.Alloc); ok && x.Val == v {
+								for _, r2 := range *al.Referrers() {
+									if ld, ok := r2.(*ssa.UnOp); ok && ld.Op == token.MUL {
+										if w := reach(ld, depth+1, seen); w != "" {
+											return w
+										}
+									}
+								}
+							}
+						case *ssa.Call:
+							g := x.Call.StaticCallee()
+							if g == nil || g.Pkg == nil || g.Pkg.Pkg.Path() != rootPkgPath || !isErrorConstructorCall(x) {
+								continue
+							}
+							if isWrapHelperCall(x) || g.Name() == "NewExternalError" {
+								continue
+							}
+							if knownNil(v, x.Block()) {
+								continue
+							}
+							return g.Name() + " at " + p.InstrPos(x)
+						}
+					}
+					return ""
+				}
+				if w := reach(ev, 0, map[ssa.Value]bool{}); w != "" && !isDiagnosticFile(p.Fset.Position(fn.Pos()).Filename) {
+					n++
+					r.Bad(R, "recategorised:"+p.Name(fn)+":"+src, p.InstrPos(in), "the error of "+src+" (caller-supplied component) can be handed to "+w+": the failure of the caller's component is reported under a library category instead of as an external error")
+				}
+			}
+			// (c) error first: a found/ok flag returned next to the error is consulted only where the error is known to be nil
+			if tup, ok := c.Type().(*types.Tuple); ok && tup.Len() >= 2 && !isDiagnosticFile(p.Fset.Position(fn.Pos()).Filename) && !errFirstExempt[p.Name(fn)] {
+				for _, ref := range *c.Referrers() {
+					ex, ok := ref.(*ssa.Extract)
+					if !ok || ex.Index == tup.Len()-1 {
+						continue
+					}
+					if b, ok := ex.Type().Underlying().(*types.Basic); !ok || b.Kind() != types.Bool {
+						continue
+					}
+					for _, blk := range fn.Blocks {
+						ifi, ok := blk.Instrs[len(blk.Instrs)-1].(*ssa.If)
+						if !ok {
+							continue
+						}
+						cv := canon(ifi.Cond)
+						if u, ok := cv.(*ssa.UnOp); ok && u.Op == token.NOT {
+							cv = canon(u.X)
+						}
+						if cv != ssa.Value(ex) && !sameValue(cv, ex) {
+							continue
+						}
+						n++
+						r.Decide(knownNil(ev, blk), R, "error-first:"+p.Name(fn)+":"+src, p.InstrPos(ifi),
+							"the found flag is consulted only after the error was tested",
+							"the found flag returned by "+src+" is consulted before its error: a failure of the caller's component (found=false, err!=nil) is taken for 'not found' and reported under a library category")
+					}
 				}
 			}
 			if raw != "" {
